@@ -2066,7 +2066,15 @@ class Interp(object):
         raise Unsupported('global statement')
 
     def exec_With(self, node, env):
-        raise Unsupported('with statement')
+        # only file-like context managers (A-IO: __enter__ returns the object, __exit__ closes it and does not swallow exceptions)
+        for item in node.items:
+            v = self.eval(item.context_expr, env)
+            if not (isinstance(v, Opaque) and v.tag == 'file'):
+                raise Unsupported('with statement on %s' % type(v).__name__)
+            self.ctx.use_axiom('A-IO:file objects are context managers that close on exit')
+            if item.optional_vars is not None:
+                self.assign_target(item.optional_vars, v, env)
+        self.exec_block(node.body, env)
 
     def exec_Try(self, node, env):
         try:
